@@ -151,6 +151,8 @@ func (c *Ctx) RunIso() {
 		c.runIso()
 	}
 	isoBare = false
+	c.Rep.Bound = fmt.Sprintf("%d mutations of the caller's WarriorData (with and without metadata) x %d API points of a %d-cycle battle with Reset and respawn; the battle must leave the caller's data untouched", nMutations(), isoPoints, isoCycles)
+	c.Rep.Sample("mutation 3 (field A of instruction 0) applied after cycle 2")
 }
 
 func (c *Ctx) runIso() {
@@ -169,7 +171,6 @@ func (c *Ctx) runIso() {
 			c.checkIso(base, m, p)
 		}
 	}
-	rep.Bound += fmt.Sprintf("; copy isolation: %d mutations of the caller's WarriorData x %d API points of a %d-cycle battle with Reset and respawn", nMutations(), isoPoints, isoCycles)
 }
 
 func (c *Ctx) checkIso(base []string, m, p int) {
